@@ -45,7 +45,7 @@ def run(ctx):
     repo = ctx.repo
     reg = registry(repo)
     r1 = ctx.rule("C10.R1", "SHAPE: tile repeat tuples place `batch_size or 1` at the batch axis: (1,1,B,1) for masks and nominal rates, (n_mods,B,1) for access fields, (B,1) for constraint widths; every other entry is 1 / the modifier count", "SHAPE", floor=12)
-    r2 = ctx.rule("C10.R2", "SIB: under `self.batch_size is None` the unbatched arm uses the parameters as given, the batched arm flattens them (reshape(pars, (-1,))) before gather; einsum parameter operands carry the output's batch letter on the batched arm only", "SIB", floor=9)
+    r2 = ctx.rule("C10.R2", "SIB: under `self.batch_size is None` the unbatched arm uses the parameters as given, the batched arm flattens them (reshape(pars, (-1,))) before gather; einsum parameter operands carry the output's batch letter on the batched arm only", "SIB", floor=6)
     r3 = ctx.rule("C10.R3", "DEP: every sum/product/mean on the evaluation path names an axis that is not None", "DEP", floor=6)
     r4 = ctx.rule("C10.R4", "ORDER: `[0]` row stripping / reshape to (1,) of evaluation results happens only under `batch_size is None` (resp. `not batch_size`)", "ORDER", floor=2)
 
